@@ -3,6 +3,7 @@
 (*   reset  {wplug, uplug, wcfg, wpref, genUp, encUp, ucfg, upref, decUp}   the case that was executed              *)
 (*   wrap   {ok, entries, genOrder, wiped, panic}                           what EncryptKey did                      *)
 (*   unwrap {ok, same, order, wipedDecrypt, panic}                          what DecryptKey did on that envelope     *)
+(*   unwrap2 {ok, same, order, panic}      what the SAME instance did on it again once every region was back         *)
 (* The outcome predicates WrapAllowed / UnwrapAllowed are the ones the design is checked against.  wipedDecrypt     *)
 (* is recorded but belongs to C10 and is deliberately not looked at.  GenerateDataKey not starting with the         *)
 (* preferred region is reported as drift (a printed line) unless StrictGenOrder is set.                              *)
@@ -25,19 +26,24 @@ UnwrapObs == [ok |-> ev.ok, same |-> ev.same, order |-> ev.order]
 TInit == Init /\ l = 1
 TReset == /\ IsEv("reset")
           /\ IsCase(CaseOf(ev))
-          /\ c' = CaseOf(ev) /\ phase' = "configured" /\ w' = NoWrap /\ u' = NoUnwrap
+          /\ c' = CaseOf(ev) /\ phase' = "configured" /\ w' = NoWrap /\ u' = NoUnwrap /\ u2' = NoUnwrap
 TWrap == /\ IsEv("wrap") /\ phase = "configured"
          /\ ev.panic = ""
          /\ WrapAllowed(c, WrapObs)
          /\ StrictGenOrder => GenPreferredFirst(c, WrapObs)
          /\ IF ev.ok /\ ~GenPreferredFirst(c, WrapObs) THEN PrintT(<<"DRIFT-GEN-ORDER", ev.run>>) ELSE TRUE
          /\ w' = WrapObs
-         /\ phase' = "wrapped" /\ UNCHANGED <<c, u>>
+         /\ phase' = "wrapped" /\ UNCHANGED <<c, u, u2>>
 TUnwrap == /\ IsEv("unwrap") /\ phase = "wrapped" /\ w.ok
            /\ ev.panic = ""
            /\ UnwrapAllowed(c, w.entries, UnwrapObs)
            /\ u' = UnwrapObs
-           /\ phase' = "done" /\ UNCHANGED <<c, w>>
+           /\ phase' = "done" /\ UNCHANGED <<c, w, u2>>
+TUnwrap2 == /\ IsEv("unwrap2") /\ phase = "done"
+            /\ ev.panic = ""
+            /\ UnwrapAllowed(Recovered(c), w.entries, UnwrapObs)
+            /\ u2' = UnwrapObs
+            /\ phase' = "redone" /\ UNCHANGED <<c, w, u>>
 
 \* Never produces a successor: when an observation is not allowed it prints which clauses of C17 it breaks; the trace
 \* is then rejected at that line because no action matches.
@@ -51,12 +57,16 @@ TExplain ==
      \/ /\ ev.e = "unwrap" /\ phase = "wrapped" /\ w.ok
         /\ \/ ev.panic # "" /\ Why({"panic-in-unwrap"})
            \/ ev.panic = "" /\ ~UnwrapAllowed(c, w.entries, UnwrapObs) /\ Why(UnwrapWhy(c, w.entries, UnwrapObs))
+     \/ /\ ev.e = "unwrap2" /\ phase = "done"
+        /\ \/ ev.panic # "" /\ Why({"panic-in-second-unwrap"})
+           \/ ev.panic = "" /\ ~UnwrapAllowed(Recovered(c), w.entries, UnwrapObs)
+              /\ Why({"second-unwrap-by-the-same-instance-after-recovery: " \o n : n \in UnwrapWhy(Recovered(c), w.entries, UnwrapObs)})
      \/ /\ ev.e = "unwrap" /\ ~(phase = "wrapped" /\ w.ok) /\ Why({"unwrap-event-without-a-successful-wrap"})
      \/ /\ ev.e = "reset" /\ ~IsCase(CaseOf(ev)) /\ Why({"reset-is-not-a-case-of-the-specification"})
   /\ FALSE
   /\ UNCHANGED tvars
 
-TNext == TReset \/ TWrap \/ TUnwrap \/ TExplain
+TNext == TReset \/ TWrap \/ TUnwrap \/ TUnwrap2 \/ TExplain
 TSpec == TInit /\ [][TNext]_tvars
 TraceAccepted == LET d == TLCGet("stats").diameter IN
                  IF d - 1 = Len(TraceLog) THEN TRUE ELSE Print(<<"TRACE-REJECTED-AT-LINE", d>>, FALSE)
